@@ -77,7 +77,7 @@ def generate(seed, mode):
     for r in range(nR):
         cands = [b for b in range(r) if regs[r]['flav'] == 'V' or regs[b]['flav'] == 'A']
         if shape == 'chain' and cands:
-            k = w.choice([1, 1, 1, 2])
+            k = w.choice([1, 1, 2, 2])
         else:
             k = w.choice([0, 1, 1, 2])
         regs[r]['bases'] = w.sample(cands, min(k, len(cands)))
@@ -101,12 +101,12 @@ def generate(seed, mode):
     keypool = []
     nkeys = w.randint(4, 8)
     for _ in range(nkeys):
-        ar = w.choice([0, 1, 1, 1, 2, 2, 3])
+        ar = w.choice([0, 1, 1, 1, 2, 2, 3]) if shape != 'specdyn' else w.choice([1, 2, 2, 2, 3])
         objs = w.random() < 0.35
         keypool.append({'req': [w.randrange(nLK) for _ in range(ar)], 'p': w.randrange(nP + 1),
                         'n': w.randrange(3), 'r': w.randrange(nR), 'objs': objs})
     ops = []
-    probe_p = w.choice([15, 30, 60])
+    probe_p = w.choice([15, 30, 60]) if shape != 'specdyn' else w.choice([60, 90])
     gc_rate = w.choice([0.0, 0.03, 0.08])
     perm_rate = w.choice([0.0, 0.04])
     if shape == 'dense':
@@ -133,8 +133,9 @@ def generate(seed, mode):
     else:
         nops = w.randint(8, 36)
         wts = {
-            'dynamic': dict(reg=22, unreg=8, sub=10, unsub=6, rbases=6, rebuild=3, irebase=4, cdecl=5, odecl=6, ask=26, dropreg=1),
-            'chain': dict(reg=22, unreg=6, sub=8, unsub=4, rbases=16, rebuild=5, irebase=1, cdecl=1, odecl=1, ask=26, dropreg=2),
+            'dynamic': dict(reg=22, unreg=8, sub=10, unsub=6, rbases=6, rebuild=3, irebase=4, cdecl=5, odecl=6, ask=26, dropreg=1, rperm=1),
+            'specdyn': dict(reg=20, unreg=3, sub=8, unsub=2, rbases=1, rebuild=0, irebase=14, cdecl=10, odecl=10, ask=30, dropreg=0, rperm=0),
+            'chain': dict(reg=22, unreg=6, sub=8, unsub=4, rbases=16, rebuild=5, irebase=1, cdecl=1, odecl=1, ask=26, dropreg=2, rperm=6),
             'subs': dict(reg=4, unreg=2, sub=34, unsub=18, rbases=4, rebuild=2, irebase=2, cdecl=2, odecl=2, ask=14, dropreg=0),
             'book': dict(reg=30, unreg=16, sub=18, unsub=12, rbases=2, rebuild=6, irebase=0, cdecl=0, odecl=0, ask=8, dropreg=0),
         }[shape]
@@ -142,6 +143,13 @@ def generate(seed, mode):
             wts['rebuild'] = 0
         kinds = list(wts)
         weights = [wts[k] for k in kinds]
+        # swarm knob: concentrate registrations of all registries around one key asked from the bottom registry
+        focus_p = w.choice([0.0, 0.4, 0.7])
+        if focus_p:
+            keypool[0]['r'] = nR - 1
+
+        def fromkey():
+            return 0 if o.random() < focus_p else o.randrange(64)
         for _ in range(nops):
             k = o.getrandbits(30)
             if o.random() < gc_rate:
@@ -152,15 +160,22 @@ def generate(seed, mode):
             if kind == 'reg':
                 ops.append({'op': 'reg', 'r': o.randrange(nR), 'req': req(arity(), nSP + 1), 'p': o.randrange(nP),
                             'n': o.randrange(3), 'v': o.randrange(len(vals)), 'k': k})
+                if o.random() < 0.55:
+                    # register in the neighbourhood of a key of the pool, so that lookups hit and registries collide on keys
+                    ops[-1].update({'fromkey': fromkey(), 'req': req(3, 64), 'samepn': o.random() < 0.7})
             elif kind == 'unreg':
                 ops.append({'op': 'unreg', 'r': o.randrange(nR), 'sel': o.randrange(64), 'how': o.randrange(4), 'k': k})
             elif kind == 'sub':
                 ops.append({'op': 'sub', 'r': o.randrange(nR), 'req': req(arity(), nSP + 1), 'p': o.randrange(nP + 1) - 1,
                             'v': o.randrange(len(vals)), 'k': k})
+                if o.random() < 0.55:
+                    ops[-1].update({'fromkey': fromkey(), 'req': req(3, 64), 'samepn': o.random() < 0.7})
             elif kind == 'unsub':
                 ops.append({'op': 'unsub', 'r': o.randrange(nR), 'sel': o.randrange(64), 'how': o.randrange(4), 'k': k})
             elif kind == 'rbases':
                 ops.append({'op': 'rbases', 'r': o.randrange(nR), 'bases': [o.randrange(nR) for _ in range(o.choice([0, 1, 1, 2]))], 'k': k})
+            elif kind == 'rperm':
+                ops.append({'op': 'rbases', 'r': o.randrange(nR), 'bases': [], 'reorder': True, 'k': k})
             elif kind == 'rebuild':
                 ops.append({'op': 'rebuild', 'r': o.randrange(nR), 'k': k})
             elif kind == 'irebase':
@@ -414,7 +429,7 @@ def execute(program, ctx, mode):
                 prop, 'extra' if extra > 0 else ('missing' if extra < 0 else 'different'), where),
                 {'r': r, 'p': p, 'got': repr(got), 'want': repr(flat), 'rb': dict(rb)})
             return
-        if prop != 'C07':
+        if prop not in ('C07', 'C06'):
             return
         i = 0
         for rr, keyed in exp:
@@ -422,10 +437,10 @@ def execute(program, ctx, mode):
             blk = got[i:i + cnt]
             i += cnt
             if ids(blk) != ids(v for l in keyed.values() for (_p, v) in l):
-                ctx.violation('C07', 'subscriptions-registry-order', 'C07|subscriptions|order|base-registries-first',
+                ctx.violation(prop, 'subscriptions-registry-order', '%s|subscriptions|order|base-registries-first|%s' % (prop, where),
                               {'r': r, 'got': repr(got), 'ro': ro_of(r)})
                 return
-            if not keyed:
+            if not keyed or prop != 'C07':
                 continue
             # position of each value occurrence inside the block, per key
             # (values are matched greedily by identity; duplicates are interchangeable)
@@ -554,8 +569,15 @@ def execute(program, ctx, mode):
                 if 'C06' in props:
                     sources.append(('cold', twin()))
                 for where, rs in sources:
-                    got = rs[r].lookup(specs, prov(p), nm)
                     acc = model_lookup(r, specs, p, nm)
+                    # "... or the default if there is none": two different default objects in a row
+                    for _rep in (0, 1):
+                        D = object()
+                        g2 = rs[r].lookup(specs, prov(p), nm, D)
+                        if acc == [None] and g2 is not D and g2 is None or (acc == [None] and g2 is not D and not isinstance(g2, Val)):
+                            ctx.violation(prop, 'lookup-default', '%s|lookup|default-not-returned-by-identity|%s' % (prop, where),
+                                          {'r': r, 'req': [LK[x % len(LK)] for x in key['req']], 'p': p, 'name': nm, 'got': repr(g2)})
+                    got = rs[r].lookup(specs, prov(p), nm)
                     ctx.state('lookup', len(specs), len(ro_of(r)), len(acc), acc[0] is None)
                     if len(acc) > 1:
                         ctx.probe('ambiguous-provided')
@@ -612,10 +634,10 @@ def execute(program, ctx, mode):
         objs = key_objs(key)
         order = list(range(len(ENTRIES)))
         random.Random(salt).shuffle(order)
-        dflt = object()
         ctx.state('c08', len(specs), f is None, len(subsl), len(allnames), objs is None)
         for e in order:
             kind = ENTRIES[e]
+            dflt = object()      # a different default object on every call: defaults are returned by identity, never cached
             ctx.sig('c08-order', tuple(order[:3]))
             if kind == 'lookup':
                 got = regs[r].lookup(specs, pi, nm, dflt)
@@ -904,6 +926,14 @@ def execute(program, ctx, mode):
                 if not alive[r]:
                     continue
                 req = [SP[x % len(SP)] if x % (len(SP) + 1) != len(SP) else None for x in op['req']]
+                if op.get('fromkey') is not None:
+                    fk = W['keypool'][op['fromkey'] % len(W['keypool'])]
+                    op = dict(op, near=fk['req'], req=op['req'][:len(fk['req'])])
+                    if op.get('samepn'):
+                        op['n'] = fk['n']
+                        if fk['p'] % (nP + 1) < nP:
+                            op['p'] = fk['p'] % (nP + 1)
+                    req = []
                 if op.get('near'):
                     # dense shape: take the component from the neighbourhood (ancestors) of the star key's component
                     req = []
@@ -965,6 +995,12 @@ def execute(program, ctx, mode):
                 if not alive[r]:
                     continue
                 req = [SP[x % len(SP)] if x % (len(SP) + 1) != len(SP) else None for x in op['req']]
+                if op.get('fromkey') is not None:
+                    fk = W['keypool'][op['fromkey'] % len(W['keypool'])]
+                    op = dict(op, near=fk['req'], req=op['req'][:len(fk['req'])])
+                    if op.get('samepn') and fk['p'] % (nP + 1) < nP:
+                        op['p'] = fk['p'] % (nP + 1)
+                    req = []
                 if op.get('near'):
                     req = []
                     for j, x in enumerate(op['req']):
@@ -1014,6 +1050,11 @@ def execute(program, ctx, mode):
                 if not alive[r]:
                     continue
                 cands = []
+                if op.get('reorder'):
+                    if len(rb[r]) < 2:
+                        continue
+                    op = dict(op, bases=list(reversed(rb[r])))
+                    ctx.probe('registry-bases-reordered')
                 for b in op['bases']:
                     b = b % nR
                     if b == r or b in cands or not alive[b] or r in reach(rb, b) or b == r:
